@@ -10,11 +10,17 @@
 //!                1 = PUBLISH with complete payload, 2 = PUBLISH with streamed payload (is_publish),
 //!                3 = payload chunk, more follow (is_chunk), 4 = final payload chunk; size = size()
 //!   3,k          the handler of the k-th running call (0-based, oldest first) finishes
-//! observation: one field per operation `may_call,woken,running`
+//!   4,kind,size  a frame is handed to the service but its future is only created (call_nowait), as
+//!                io.rs does when it `spawn`s the call because an earlier response is outstanding
+//!   5,j          the j-th created-but-unpolled call future is polled for the first time
+//! A first poll (op 2 or 5) while the last poll_ready answered Pending is outside the modelled domain
+//! (the call would park in WaitersRef::run; io.rs never does it): the whole case answers `9998`.
+//! observation: one field per operation `may_call,woken,running,submitted`
 //!   may_call  1 after a poll that answered Ready(Ok), 0 after a poll that answered Pending and after
 //!             a call, unchanged by a completion (bookkeeping of the reading rule)
 //!   woken     the dispatcher's waker has been woken since the last poll_ready (reset when it polls)
-//!   running   number of calls whose future has not completed
+//!   running   number of calls whose future has been polled and has not completed
+//!   submitted number of call futures created and not polled yet
 use std::future::Future;
 use std::pin::Pin;
 use std::sync::Arc;
@@ -89,6 +95,8 @@ pub fn run(c: &Fields) -> Fields {
     let waker = Waker::from(flag.clone());
 
     let mut running: Vec<(u64, CallFut)> = Vec::new();
+    let mut submitted: Vec<(u64, CallFut)> = Vec::new();
+    let mut paused = false;
     let mut next_id = 0u64;
     let mut may_call = false;
     let mut obs = Fields::new();
@@ -103,8 +111,12 @@ pub fn run(c: &Fields) -> Fields {
                     Poll::Ready(Err(())) => unreachable!(),
                     Poll::Pending => false,
                 };
+                paused = !may_call;
             }
             [2, kind, size] => {
+                if paused {
+                    return vec![vec![9998]];
+                }
                 next_id += 1;
                 let req = Req {
                     kind: *kind,
@@ -129,12 +141,36 @@ pub fn run(c: &Fields) -> Fields {
                     }
                 }
             }
+            [4, kind, size] => {
+                next_id += 1;
+                let req = Req {
+                    kind: *kind,
+                    size: u32::try_from(*size).unwrap_or(u32::MAX),
+                    id: next_id,
+                };
+                submitted.push((next_id, Box::pin(srv.call_nowait(req))));
+                may_call = false;
+            }
+            [5, j] => {
+                if let Ok(j) = usize::try_from(*j)
+                    && j < submitted.len()
+                {
+                    if paused {
+                        return vec![vec![9998]];
+                    }
+                    let (id, mut fut) = submitted.remove(j);
+                    if poll_once(&mut fut).is_pending() {
+                        running.push((id, fut));
+                    }
+                }
+            }
             _ => {}
         }
         obs.push(vec![
             u64::from(may_call),
             u64::from(flag.0.load(Ordering::SeqCst)),
             running.len() as u64,
+            submitted.len() as u64,
         ]);
     }
     obs
